@@ -2,6 +2,9 @@ package main
 
 import (
 	"go/ast"
+	"os"
+	"path/filepath"
+	"regexp"
 	"sort"
 	"strings"
 )
@@ -173,7 +176,7 @@ func extractC04(c *ctxT) {
 		{"x/erc20/keeper", "Keeper", "ConvertERC20NativeToken", []c04Want{{"convertERC20NativeToken", nil}}},
 	}
 	var sb strings.Builder
-	sb.WriteString("import FxVerif.Model.Flows\nnamespace FxVerif.Gen.C04\nopen FxVerif.Model.Flows (Call)\n\n")
+	sb.WriteString("import FxVerif.Model.C04\nnamespace FxVerif.Gen.C04\nopen FxVerif.Model.Flows (Call)\nopen FxVerif.Model.C04 (BStep BGuard BExit RStep RGuard RExit Cmp CancelRule)\n\n")
 	facts := map[string]any{}
 	for _, f := range fns {
 		fd := c.findFunc(f.pkg, f.recv, f.name)
@@ -234,7 +237,260 @@ func extractC04(c *ctxT) {
 		}
 		sb.WriteString("\n")
 	}
+	c04Batch(c, &sb)
 	sb.WriteString("end FxVerif.Gen.C04\n")
 	c.write("C04.lean", sb.String())
 	c.facts["C04.paths"] = facts
+}
+
+// ---------------------------------------------------------------------------------------------------------------
+// batch life cycle: the statements of MsgServer.RequestBatch and Keeper.BuildOutgoingTxBatch in source order (guards
+// with the way they leave the function, the pool-removing pick, the store), the guard of the cancel loop of
+// OutgoingTxBatchExecuted, and the batch-nonce rule of the bridge contracts' submitBatch.
+
+var c04CallRe = regexp.MustCompile(`\b(pickUnBatchedTx|StoreBatch|BuildOutgoingTxBatch|AccAddressFromBech32|GetContractByBridgeDenom|autoIncrementID)\(`)
+
+// c04LastCall returns the name of the tracked call an assignment / init statement makes, or "".
+func c04LastCall(c *ctxT, n ast.Node) string {
+	if n == nil {
+		return ""
+	}
+	if m := c04CallRe.FindStringSubmatch(c.src(n)); m != nil {
+		return m[1]
+	}
+	return ""
+}
+
+// c04ReturnOf returns the first return statement directly inside a block (not nested in further ifs), or nil.
+func c04ReturnOf(b *ast.BlockStmt) *ast.ReturnStmt {
+	for _, st := range b.List {
+		if r, ok := st.(*ast.ReturnStmt); ok {
+			return r
+		}
+	}
+	return nil
+}
+
+func c04IsNil(e ast.Expr) bool {
+	id, ok := e.(*ast.Ident)
+	return ok && id.Name == "nil"
+}
+
+type c04Stmt struct {
+	kind  string // "guard", "call"
+	cond  string // guard: condition text (outer && inner for nested guards)
+	last  string // guard: tracked call that produced `err` / `found`
+	okRet bool   // guard: the return's last result is nil (success)
+	name  string // call: tracked call name
+}
+
+// c04Statements flattens a function body into guards (ifs that return) and tracked calls, in source order.
+func c04Statements(c *ctxT, stmts []ast.Stmt, outer string, last *string, out *[]c04Stmt) {
+	for _, st := range stmts {
+		switch s := st.(type) {
+		case *ast.AssignStmt, *ast.ExprStmt, *ast.DeclStmt:
+			if n := c04LastCall(c, s); n != "" {
+				*last = n
+				*out = append(*out, c04Stmt{kind: "call", name: n})
+			}
+		case *ast.IfStmt:
+			if n := c04LastCall(c, s.Init); n != "" {
+				*last = n
+				*out = append(*out, c04Stmt{kind: "call", name: n})
+			}
+			cond := c.src(s.Cond)
+			if s.Init != nil {
+				cond = c.src(s.Init) + "; " + cond
+			}
+			if outer != "" {
+				cond = outer + " && " + cond
+			}
+			if r := c04ReturnOf(s.Body); r != nil && len(r.Results) > 0 {
+				*out = append(*out, c04Stmt{kind: "guard", cond: cond, last: *last, okRet: c04IsNil(r.Results[len(r.Results)-1])})
+			} else {
+				c04Statements(c, s.Body.List, cond, last, out)
+			}
+			if e, ok := s.Else.(*ast.BlockStmt); ok {
+				c04Statements(c, e.List, "!("+cond+")", last, out)
+			}
+		case *ast.ReturnStmt:
+			*out = append(*out, c04Stmt{kind: "return", cond: c.src(s)})
+		}
+	}
+}
+
+func c04Batch(c *ctxT, sb *strings.Builder) {
+	const keeper = "x/crosschain/keeper"
+	squash := func(s string) string { return regexp.MustCompile(`\s+`).ReplaceAllString(s, "") }
+	// ---- BuildOutgoingTxBatch ----
+	{
+		var steps, notes []string
+		if fd := c.findFunc(keeper, "Keeper", "BuildOutgoingTxBatch"); fd != nil && fd.Body != nil {
+			var sts []c04Stmt
+			last := ""
+			c04Statements(c, fd.Body.List, "", &last, &sts)
+			for _, st := range sts {
+				switch st.kind {
+				case "call":
+					switch st.name {
+					case "pickUnBatchedTx":
+						steps = append(steps, ".pick")
+					case "StoreBatch":
+						steps = append(steps, ".store")
+					}
+				case "guard":
+					q := squash(st.cond)
+					g := ".unknown"
+					switch {
+					case strings.HasSuffix(q, "err!=nil") && st.last == "pickUnBatchedTx":
+						g = ".pickErr"
+					case strings.HasSuffix(q, "err!=nil") && st.last == "StoreBatch":
+						g = ".storeErr"
+					case q == "maxElements==0":
+						g = ".maxZero"
+					case strings.Contains(q, ".GetFees().GT("):
+						g = ".notProfitable"
+					case q == "len(selectedTx)==0":
+						g = ".noTx"
+					case strings.Contains(q, ".LT(minimumFee)"):
+						g = ".belowMinFee"
+					case q == "batchTimeout<=0":
+						g = ".zeroTimeout"
+					}
+					x := ".err"
+					if st.okRet {
+						x = ".okNoBatch"
+					}
+					steps = append(steps, ".guard "+g+" "+x)
+					notes = append(notes, g+" "+x+"  <=  if "+st.cond)
+				}
+			}
+		}
+		sb.WriteString("/-! `BuildOutgoingTxBatch` — statements in source order:\n")
+		for _, n := range notes {
+			sb.WriteString("  " + strings.ReplaceAll(n, "-/", "- /") + "\n")
+		}
+		sb.WriteString("-/\ndef buildOutgoingTxBatch_steps : List BStep := " + leanList(steps) + "\n\n")
+		c.facts["C04.buildOutgoingTxBatch_steps"] = steps
+	}
+	// ---- MsgServer.RequestBatch ----
+	{
+		var steps, notes []string
+		if fd := c.findFunc(keeper, "MsgServer", "RequestBatch"); fd != nil && fd.Body != nil {
+			var sts []c04Stmt
+			last := ""
+			c04Statements(c, fd.Body.List, "", &last, &sts)
+			for _, st := range sts {
+				switch st.kind {
+				case "call":
+					if st.name == "BuildOutgoingTxBatch" {
+						steps = append(steps, ".build")
+					}
+				case "guard":
+					q := squash(st.cond)
+					g := ".unknown"
+					switch {
+					case strings.HasSuffix(q, "err!=nil") && st.last == "AccAddressFromBech32":
+						g = ".badSender"
+					case strings.HasSuffix(q, "err!=nil") && st.last == "BuildOutgoingTxBatch":
+						g = ".buildErr"
+					case q == "!found" && st.last == "GetContractByBridgeDenom":
+						g = ".noToken"
+					case strings.Contains(q, "!s.HasOracleAddrByBridgerAddr(") && strings.Contains(q, "!s.IsProposalOracle("):
+						g = ".notOracle"
+					case q == "batch==nil":
+						g = ".nilBatch"
+					}
+					x := ".err"
+					if st.okRet {
+						x = ".okEmpty"
+					}
+					steps = append(steps, ".guard "+g+" "+x)
+					notes = append(notes, g+" "+x+"  <=  if "+st.cond)
+				case "return":
+					// the final return: dereferences the batch it answers with
+					if strings.Contains(squash(st.cond), "batch.BatchNonce") {
+						steps = append(steps, ".respond")
+					}
+					notes = append(notes, "return  <=  "+st.cond)
+				}
+			}
+		}
+		sb.WriteString("/-! `MsgServer.RequestBatch` — statements in source order:\n")
+		for _, n := range notes {
+			sb.WriteString("  " + strings.ReplaceAll(strings.ReplaceAll(n, "-/", "- /"), "\n", " ") + "\n")
+		}
+		sb.WriteString("-/\ndef requestBatch_steps : List RStep := " + leanList(steps) + "\n\n")
+		c.facts["C04.requestBatch_steps"] = steps
+	}
+	// ---- OutgoingTxBatchExecuted: guard of the cancel loop ----
+	{
+		cmp, same, where := "unknown", false, "(no comparison of batch nonces found)"
+		if fd := c.findFunc(keeper, "Keeper", "OutgoingTxBatchExecuted"); fd != nil && fd.Body != nil {
+			re := regexp.MustCompile(`\w+\.BatchNonce(<=|>=|<|>|==|!=)batch\.BatchNonce`)
+			ast.Inspect(fd.Body, func(n ast.Node) bool {
+				ifs, ok := n.(*ast.IfStmt)
+				if !ok || cmp != "unknown" {
+					return true
+				}
+				q := squash(c.src(ifs.Cond))
+				if m := re.FindStringSubmatch(q); m != nil {
+					cmp = c04Cmp(m[1])
+					same = regexp.MustCompile(`\w+\.TokenContract==(tokenContract|batch\.TokenContract)`).MatchString(q)
+					where = c.pos(ifs) + ": if " + c.src(ifs.Cond)
+				}
+				return true
+			})
+		}
+		sb.WriteString("/-- guard of the cancel loop of `OutgoingTxBatchExecuted` — " + strings.ReplaceAll(where, "-/", "- /") + " -/\n")
+		sb.WriteString("def executedCancelRule : CancelRule := ⟨." + cmp + ", " + leanBool(same) + "⟩\n\n")
+		c.facts["C04.executedCancelRule"] = []any{cmp, same}
+	}
+	// ---- Solidity: submitBatch's nonce rule, per bridge-logic file ----
+	{
+		var rows []string
+		for _, f := range []string{"FxBridgeLogic.sol", "FxBridgeLogicETH.sol", "FxBridgeLogicBSC.sol"} {
+			bz, err := os.ReadFile(filepath.Join(c.repo, "solidity", "contracts", "bridge", f))
+			if err != nil {
+				continue
+			}
+			sol := string(bz)
+			body := ""
+			if i := strings.Index(sol, "function submitBatch("); i >= 0 {
+				body = sol[i:]
+				if j := strings.Index(body[10:], "\n    function "); j >= 0 {
+					body = body[:10+j]
+				}
+			}
+			q := squash(body)
+			cmp := "unknown"
+			if m := regexp.MustCompile(`require\(state_lastBatchNonces\[_tokenContract\](<=|>=|<|>|==|!=)_nonceArray\[1\],`).FindStringSubmatch(q); m != nil {
+				cmp = c04Cmp(m[1])
+			}
+			perToken := strings.Contains(q, "state_lastBatchNonces[_tokenContract]=_nonceArray[1];") &&
+				regexp.MustCompile(`mapping\(address=>uint256\)publicstate_lastBatchNonces;`).MatchString(squash(sol))
+			rows = append(rows, "("+leanStr(f)+", ."+cmp+", "+leanBool(perToken)+")")
+		}
+		sb.WriteString("/-- `submitBatch` of every bridge-logic contract: `require(state_lastBatchNonces[_tokenContract] <cmp> batchNonce)`, and\nwhether the last executed nonce is kept PER TOKEN (`mapping(address => uint256)`, set to the executed nonce) -/\n")
+		sb.WriteString("def solBatchNonceRules : List (String × Cmp × Bool) := " + leanList(rows) + "\n\n")
+		c.facts["C04.solBatchNonceRules"] = rows
+	}
+}
+
+func c04Cmp(op string) string {
+	switch op {
+	case "<":
+		return "lt"
+	case "<=":
+		return "le"
+	case ">":
+		return "gt"
+	case ">=":
+		return "ge"
+	case "==":
+		return "eq"
+	case "!=":
+		return "ne"
+	}
+	return "unknown"
 }
